@@ -1416,3 +1416,147 @@ func lossySignals(c *Ctx, id string) {
 	// (no such send on the reference tree: the waits poll; the rule arms itself when one is introduced)
 	c.Check(len(bad) == 0, id, "lossy-signal", 0, fmt.Sprintf("%d non-blocking sends, none on an unbuffered channel", n), "a wake-up can be lost: "+strings.Join(bad, "; "))
 }
+
+// workerResultChannels (C20): no worker blocks for ever on reporting its outcome. Where a function starts goroutines in
+// a loop and reads what they send only after waiting for them (WaitGroup.Wait / errgroup Wait), a channel those
+// goroutines send on must have room for every one of them: its capacity is tied to the number of workers (len of the
+// ranged list), not a constant — with a constant k, failure number k+1 blocks on the send while the spawner blocks on
+// the wait.
+func workerResultChannels(c *Ctx, id string) {
+	w := c.W
+	n := 0
+	var bad []string
+	for _, fn := range w.ModFuncs {
+		if fn.Parent() != nil {
+			continue
+		}
+		var waits []ssa.Instruction
+		allInstrs(fn, func(in ssa.Instruction) {
+			if cc := callOf(in); cc != nil {
+				name := calleeName(cc)
+				if strings.HasSuffix(name, "WaitGroup).Wait") || strings.HasSuffix(name, "errgroup.Group).Wait") {
+					waits = append(waits, in)
+				}
+			}
+		})
+		if len(waits) == 0 {
+			continue
+		}
+		// channels made here on which a goroutine body sends
+		allInstrs(fn, func(in ssa.Instruction) {
+			mk, ok := in.(*ssa.MakeChan)
+			if !ok {
+				return
+			}
+			sentByWorker := false
+			for _, a := range fn.AnonFuncs {
+				started := false
+				allInstrs(fn, func(y ssa.Instruction) {
+					if g, isGo := y.(*ssa.Go); isGo && (closureOf(g.Common().Value) == a || g.Common().StaticCallee() == a) {
+						started = true
+					}
+				})
+				if !started {
+					continue
+				}
+				for _, f := range withAnon(a) {
+					allInstrs(f, func(x ssa.Instruction) {
+						if sd, isSend := x.(*ssa.Send); isSend && resolveCell(sd.Chan) == ssa.Value(mk) {
+							sentByWorker = true
+						}
+					})
+				}
+			}
+			if !sentByWorker {
+				return
+			}
+			// read only after the wait?
+			readBeforeWait := false
+			allInstrs(fn, func(x ssa.Instruction) {
+				u, isU := x.(*ssa.UnOp)
+				if !isU || u.Op.String() != "<-" || resolveCell(u.X) != ssa.Value(mk) {
+					return
+				}
+				after := false
+				for _, wt := range waits {
+					if dominatesInstr(wt, x) {
+						after = true
+					}
+				}
+				if !after {
+					readBeforeWait = true
+				}
+			})
+			if readBeforeWait {
+				return
+			}
+			n++
+			// room for every worker: the capacity is the length of the list the workers are started over
+			if o := w.Origin(mk.Size); !strings.Contains(o, "len(") {
+				bad = append(bad, fmt.Sprintf("%s: channel of capacity %s @%s is written by workers and read only after the wait", fname(fn), o, w.pos(mk.Pos())))
+			}
+		})
+	}
+	// (no such channel on the reference tree: workers panic or use errgroup; the rule arms itself when one appears)
+	c.Check(len(bad) == 0, id, "worker-result-channels", 0, fmt.Sprintf("%d result channels read after the wait, none of constant capacity", n), "workers can block for ever on reporting: "+strings.Join(bad, "; "))
+}
+
+// dirtyMarkWriters (C14/C05): what gets written by a save is decided by the dirty marks, and a mark is raised in one
+// place: the position writer (when told dirty). Besides it only the checkpoint's Load builds the initial marks. Any
+// other function that stores into the dirty map flags vBuckets nobody settled anything on.
+func dirtyMarkWriters(c *Ctx, id string) {
+	w := c.W
+	writers := map[*ssa.Function]bool{}
+	for _, f := range w.positionWriterFuncs() {
+		writers[f] = true
+	}
+	n := 0
+	var bad []string
+	for _, fn := range w.ModFuncs {
+		if r := rootFn(fn); r.Signature.Recv() != nil && recvTypeName(r.Signature.Recv().Type()) == "ConcurrentSwissMap" {
+			continue
+		}
+		allInstrs(fn, func(in ssa.Instruction) {
+			cc := callOf(in)
+			if cc == nil {
+				return
+			}
+			m, recv := csmapMethod(cc)
+			if (m != "Store" && m != "StoreIf") || recv == nil || !w.isDirtyMap(recv.Type()) {
+				return
+			}
+			n++
+			r := rootFn(fn)
+			if writers[r] || writers[fn] {
+				return
+			}
+			if strings.HasSuffix(fname(r), "checkpoint).Load") || len(callsInUnit(w, r, "checkpoint).Load")) > 0 {
+				return
+			}
+			bad = append(bad, fname(fn)+" @"+w.pos(in.Pos()))
+		})
+	}
+	c.Check(n >= 2 && len(bad) == 0, id, "dirty-mark-writers", 0, fmt.Sprintf("%d stores into the dirty marks: the position writer and the checkpoint's Load", n), "a vBucket is flagged for saving outside the position writer: "+strings.Join(bad, "; "))
+}
+
+// callsInUnit: fn is (a helper of) the function whose name ends with suffix: the callers of fn up to two levels.
+func callsInUnit(w *World, fn *ssa.Function, suffix string) []*ssa.Function {
+	var out []*ssa.Function
+	seen := map[*ssa.Function]bool{}
+	var up func(f *ssa.Function, d int)
+	up = func(f *ssa.Function, d int) {
+		if seen[f] || d > 2 {
+			return
+		}
+		seen[f] = true
+		for _, cs := range w.callersOf(f) {
+			r := rootFn(cs.Fn)
+			if strings.HasSuffix(fname(r), suffix) {
+				out = append(out, r)
+			}
+			up(r, d+1)
+		}
+	}
+	up(fn, 0)
+	return out
+}
